@@ -649,10 +649,25 @@ where
                     })
                 }
                 34 => {
-                    let mut pk = GLWEPublicKey::alloc_from_infos(&lay);
-                    m.glwe_public_key_generate(&mut pk, &skp, &enc, &mut Source::new(seed32(c.seed, 5)), &mut Source::new(seed32(c.seed, 6)));
-                    let mut pkp = m.glwe_public_key_prepared_alloc_from_infos(&lay);
+                    // the public key may hold more limbs than the ciphertext (admitted: only n, rank and radix are asserted)
+                    use poulpy_hal::api::{VecZnxBigBytesOf, VecZnxDftBytesOf};
+                    let pk_size = size + (c.extra as usize % 3);
+                    let pk_k = pk_size * b;
+                    let pk_lay = GLWELayout { n: Degree(n as u32), base2k: Base2K(b as u32), k: TorusPrecision(pk_k as u32), rank };
+                    let pk_enc = EncryptionLayout::new(pk_lay, poulpy_hal::layouts::NoiseInfos::new(pk_k, 3.2, 19.2).unwrap()).unwrap();
+                    let mut pk = GLWEPublicKey::alloc_from_infos(&pk_lay);
+                    m.glwe_public_key_generate(&mut pk, &skp, &pk_enc, &mut Source::new(seed32(c.seed, 5)), &mut Source::new(seed32(c.seed, 6)));
+                    let mut pkp = m.glwe_public_key_prepared_alloc_from_infos(&pk_lay);
                     m.glwe_public_key_prepare(&mut pkp, &pk);
+                    // the query sees the ciphertext layout only; it reserves one DFT and one big column of that size, the
+                    // routine one DFT column of the key's size: a key beyond those two buffers is a recorded finding
+                    let opn: &str = if pk_size == size {
+                        opn
+                    } else if m.bytes_of_vec_znx_dft(1, pk_size) > m.bytes_of_vec_znx_dft(1, size) + m.bytes_of_vec_znx_big(1, size) {
+                        "glwe_encrypt_pk[key_wider_than_the_buffers_the_query_reserves]"
+                    } else {
+                        "glwe_encrypt_pk[key_wider_than_the_ciphertext]"
+                    };
                     let bytes = m.glwe_encrypt_pk_tmp_bytes(&lay);
                     three_runs::<B, _>(c, opn, bytes, |s, fill| {
                         let mut ct = filled(n, Lay { b, size }, ro, VClass::Uniform, fill);
